@@ -316,6 +316,23 @@ func C06() int {
 				}
 			}
 		}
+		if si%4 == 3 && len(S) > 0 {
+			// a real entry behind a UTF-8 byte order mark (files saved by Windows tools, two such files
+			// concatenated): not a JSON object - as the very FIRST line of the input, in the middle, at the end
+			bom := func() c06Line {
+				o := pool[objIdx[r.Intn(len(objIdx))]]
+				return c06Line{raw: append([]byte("\xef\xbb\xbf"), o.raw...), obj: false, cls: "entry-behind-a-byte-order-mark"}
+			}
+			switch si / 4 % 3 {
+			case 0:
+				S = append([]c06Line{bom()}, S...)
+			case 1:
+				S = append([]c06Line{bom()}, S...)
+				S[len(S)/2] = bom()
+			case 2:
+				S = append(S, bom())
+			}
+		}
 		if si%5 == 1 { // blank lines at the very end (progress-bar special case)
 			S = append(S, pool[nonIdx[0]], pool[nonIdx[0]])
 		}
